@@ -400,6 +400,47 @@ def srp_constants(out):
     out["_srp_raw"] = d
 
 
+
+@extractor
+def install_sites(out):
+    """which derived key goes where, at the three install sites"""
+    d = {}
+
+    def labels_in(fnode):
+        labs = []
+        for n in ast.walk(fnode):
+            if isinstance(n, ast.Assign) and isinstance(n.value, ast.Call) and getattr(n.value.func, "id", getattr(n.value.func, "attr", "")) in ("derive", "_derive"):
+                labs.append((n.lineno, ast.unparse(n.targets[0]), [bconst(a).decode() for a in n.value.args if bconst(a) is not None]))
+            if isinstance(n, ast.Call) and getattr(n.func, "id", "") in ("EncryptionKey", "DecryptionKey") and n.args and isinstance(n.args[0], ast.Call):
+                inner = n.args[0]
+                labs.append((n.lineno, n.func.id, [bconst(a).decode() for a in inner.args if bconst(a) is not None]))
+        return [[t, ls] for _, t, ls in sorted(labs)]
+
+    t = parse("controller/ip/connection.py")
+    f = func(t, "_connect_once", "SecureHomeKitConnection")
+    d["ip"] = labels_in(f)
+    ctor = [n for n in ast.walk(f) if isinstance(n, ast.Call) and getattr(n.func, "id", "") == "SecureHomeKitProtocol"]
+    if len(ctor) != 1:
+        raise Shape("SecureHomeKitProtocol(...) call")
+    d["ipCtorArgs"] = [ast.unparse(a) for a in ctor[0].args]
+    init = func(t, "__init__", "SecureHomeKitProtocol")
+    d["ipCtorParams"] = [a.arg for a in init.args.args]
+    enc = [ast.unparse(n.value.args[0]) for n in ast.walk(init) if isinstance(n, ast.Assign) and isinstance(n.value, ast.Call) and getattr(n.value.func, "id", "") in ("ChaCha20Poly1305Encryptor", "ChaCha20Poly1305Decryptor")]
+    d["ipCipherKeys"] = enc
+    t = parse("controller/coap/connection.py")
+    d["coap"] = labels_in(func(t, "do_pair_verify"))
+    ec = [n for n in ast.walk(func(t, "do_pair_verify")) if isinstance(n, ast.Call) and getattr(n.func, "id", "") == "EncryptionContext"]
+    if len(ec) != 1:
+        raise Shape("EncryptionContext(...) call")
+    d["coapCtxArgs"] = [ast.unparse(a) for a in ec[0].args[:3]]
+    t = parse("controller/ble/pairing.py")
+    d["ble"] = labels_in(func(t, "_async_pair_verify"))
+    for k in ("ip", "coap", "ble"):
+        if not d[k]:
+            raise Shape("install site " + k)
+    out["Install"] = d
+
+
 # --------------------------------------------------------------------------- emission
 
 def emit(out):
@@ -528,6 +569,18 @@ def emit_srp(out, files):
          f"def keyLen : Nat := {d['HK_KEY_LENGTH']}", f"def saltLen : Nat := {d['SALT_LENGTH']}", f"def username : String := {lean_str(d['USERNAME'])}",
          "end HapVerif.Gen.Srp"]
     files["Srp.lean"] = "\n".join(L) + "\n"
+
+
+@emitter
+def emit_install(out, files):
+    d = out["Install"]
+    L = ["/-! GENERATED by tools/translate.py (key install sites of IP, CoAP, BLE) - do not edit. -/", "namespace HapVerif.Gen.Install"]
+    for k in ("ip", "coap", "ble"):
+        L.append(f"def {k} : List (String × List String) := " + lean_list(d[k], lambda r: f"({lean_str(r[0])}, {lean_list(r[1], lean_str)})"))
+    for k in ("ipCtorArgs", "ipCtorParams", "ipCipherKeys", "coapCtxArgs"):
+        L.append(f"def {k} : List String := " + lean_list(d[k], lean_str))
+    L.append("end HapVerif.Gen.Install")
+    files["Install.lean"] = "\n".join(L) + "\n"
 
 
 def main():
